@@ -336,6 +336,12 @@ pub fn dd_exp(ctx: &mut Ctx, emin: i64, emax: i64, zero_ok: bool) -> Dd {
             return d;
         }
     }
+    if ctx.chance(1, 16) {
+        if let Some(hi) = source_literal(ctx, emin, emax) {
+            let lo = if ctx.chance(1, 3) { 0.0 } else { low_word(ctx, hi) };
+            return Dd::new(hi, lo);
+        }
+    }
     let hi = f64_exp(ctx, emin, emax);
     let lo = low_word(ctx, hi);
     Dd::new(hi, lo)
@@ -350,12 +356,17 @@ pub fn decimal_literal(ctx: &mut Ctx, emin: i64, emax: i64) -> Option<Dd> {
         1 => ctx.range(1, 99),
         _ => ctx.range(1, 9999),
     } as f64;
-    let j = if ctx.flag() { ctx.range(-3, 3) } else { ctx.range(-22, 22) };
-    let p = 10f64.powi(j.unsigned_abs() as i32); // exact for |j| <= 22
-    let hi = if j < 0 { k / p } else { k * p };
+    let j = match ctx.below(4) {
+        0 | 1 => ctx.range(-3, 3),
+        2 => ctx.range(-22, 22),
+        _ => ctx.range(-300, 300),
+    };
+    let p = 10f64.powi(j.unsigned_abs().min(22) as i32); // exact for |j| <= 22
+    // the value the compiler gives the literal `k e j` (correctly rounded), for every j
+    let hi: f64 = format!("{}e{}", k, j).parse().unwrap_or(1.0);
     let refined = ctx.flag();
     let neg = ctx.flag();
-    let d = if refined {
+    let d = if refined && j.abs() <= 22 {
         let t = if j < 0 { TwoFloat::from(k) / TwoFloat::from(p) } else { TwoFloat::from(k) * TwoFloat::from(p) };
         Dd::of(t)
     } else {
@@ -739,4 +750,73 @@ pub fn integer_root_boundary(ctx: &mut Ctx) -> (f64, i32) {
     let d = ctx.range(-2, 2);
     let v = (lo as i128 + d as i128).max(1) as f64;
     (if ctx.flag() { -v } else { v }, r)
+}
+
+/// The numeric literals of the crate's own source (work/literals.txt, written by
+/// harvest_literals.py on every ./check): a dictionary in the fuzzing sense.
+pub fn source_literals() -> &'static (Vec<f64>, Vec<f64>) {
+    // (decimal / scientific literals - thresholds and limits; hexf literals - table entries and constants)
+    static L: std::sync::OnceLock<(Vec<f64>, Vec<f64>)> = std::sync::OnceLock::new();
+    L.get_or_init(|| {
+        let dir = std::env::var("VERIF_DIR").unwrap_or_else(|_| "/verif".into());
+        let text = std::fs::read_to_string(format!("{dir}/work/literals.txt")).unwrap_or_default();
+        let (mut s, mut h) = (Vec::new(), Vec::new());
+        for l in text.lines() {
+            let mut it = l.split_whitespace();
+            let Some(b) = it.next().and_then(|t| u64::from_str_radix(t, 16).ok()) else { continue };
+            let x = f64::from_bits(b);
+            if !x.is_finite() || x == 0.0 {
+                continue;
+            }
+            if it.next() == Some("h") {
+                h.push(x)
+            } else {
+                s.push(x)
+            }
+        }
+        (s, h)
+    })
+}
+
+/// A high word that is EXACTLY a literal of the source (either sign), or one of its close
+/// relatives (half, double, +-1..2 ulps): thresholds that comparisons are keyed on are hit
+/// exactly, on both sides, and with every low-word class.
+pub fn source_literal(ctx: &mut Ctx, emin: i64, emax: i64) -> Option<f64> {
+    let (short, long) = source_literals();
+    let l = if !short.is_empty() && (long.is_empty() || ctx.chance(3, 4)) { short } else { long };
+    if l.is_empty() {
+        return None;
+    }
+    let v = l[ctx.below(l.len() as u64) as usize];
+    let v = match ctx.below(8) {
+        0 => v * 2.0,
+        1 => v * 0.5,
+        2 => step(v, ctx.range(-2, 2)),
+        _ => v,
+    };
+    let v = if ctx.flag() { -v } else { v };
+    if !v.is_finite() || v == 0.0 || !v.is_normal() || exponent(v) < emin || exponent(v) > emax {
+        return None;
+    }
+    ctx.label("operand:source-literal");
+    Some(v)
+}
+
+/// ANY valid double-double as far as the words go: `dd_exp` over all normal binades, plus the
+/// values the normal-binade generator cannot make - a subnormal high word (the low word is then
+/// necessarily zero) of either sign, of every width.
+pub fn dd_all(ctx: &mut Ctx) -> Dd {
+    if ctx.chance(1, 24) {
+        ctx.label("hi:subnormal");
+        let width = 1 + ctx.below(52) as u32;
+        let m = (ctx.bits(52) >> (52 - width)).max(1);
+        let m = match ctx.below(4) {
+            0 => 1,                  // the smallest subnormal
+            1 => (1u64 << 52) - 1,   // the largest one
+            _ => m,
+        };
+        let hi = f64::from_bits(((ctx.flag() as u64) << 63) | m);
+        return Dd::new(hi, if ctx.flag() { 0.0 } else { -0.0 });
+    }
+    dd_exp(ctx, -1022, 1023, true)
 }
